@@ -583,6 +583,17 @@ func (w *c09World) sites() []fault {
 	return out
 }
 
+// errorKind: the failing callbacks of every third node report a field-less value-typed error, those of
+// another third an application error type with a Cause() method and no cause.
+func errorKind(ns *world.NodeSpec, i int) {
+	switch i % 3 {
+	case 1:
+		ns.ZeroValueErrors = true
+	case 2:
+		ns.CauselessErrors = true
+	}
+}
+
 // start runs the scenario with the given faults injected.
 func (w *c09World) start(faults []fault) (*world.Run, world.Expect) {
 	sc := w.sc.Clone()
@@ -616,8 +627,10 @@ func (w *c09World) start(faults []fault) (*world.Run, world.Expect) {
 			sc.Nodes[f.Node].Cfg[f.Slot] = t
 		case "init", "aps":
 			sc.Nodes[f.Node].Fails = append(sc.Nodes[f.Node].Fails, f.Kind)
+			errorKind(&sc.Nodes[f.Node], f.Node)
 		case "runner":
 			sc.Nodes[f.Node].Fails = append(sc.Nodes[f.Node].Fails, "run")
+			errorKind(&sc.Nodes[f.Node], f.Node)
 		case "pp":
 			world.PPCoreOf(pps[f.PP]).FailOn[f.CB+":"+sc.Nodes[f.Node].DisplayName()] = true
 		case "scanner":
